@@ -34,6 +34,7 @@ def run(ctx) -> None:
     ctx.rule("R1", "--dry: no FS_WRITE / VCS_MUTATE / HOOK / PROC reachable; diff path effects are read/echo/exit only")
     ctx.rule("R2", "diff path and write path agree on iterator, open keywords, rfd_from_content call, record, new_vinfo provenance")
     ctx.rule("R3", "every validation failure of the write path is also a failure of the diff path")
+    ctx.rule("R5", "up to the point where the diff is printed a dry run does what a real run does: no statement there mentions `dry` or runs depending on it")
     ctx.rule("R4", "the printed diff is the computed diff: between difflib and click.echo the text is only joined / split at line breaks and trimmed of trailing newlines")
 
     # ---------------------------------------------------------------- R1
@@ -274,3 +275,21 @@ def run(ctx) -> None:
             else:
                 ctx.bad("R4", f"{fq}: the diff text is edited before it is printed", f"`{unparse(c)[:80]}`", loc=fn.loc(c), what=f"{fq}: diff text is not edited")
     ctx.floor("R4", "functions between difflib and click.echo", n_fn, 6)
+
+    # ---------------------------------------------------------------- R5
+    pd_nodes = [ucfg.node_containing(c) for c in pdc]
+    upstream = set()
+    for n in ucfg.nodes:
+        if n.id in ucfg.reachable() and n.kind in ("stmt", "iter", "with") and n.id not in pd_nodes and any(p_ in ucfg.reachable(n.id) for p_ in pd_nodes):
+            upstream.add(n.id)
+    ctx.floor("R5", "statements of update that run before the diff is printed", len(upstream), 10)
+    D = BF.var("dry")
+    for nid in sorted(upstream):
+        n = ucfg.nodes[nid]
+        mentions = n.ast is not None and any(isinstance(x, ast.Name) and x.id == "dry" and isinstance(x.ctx, ast.Load) for x in ast.walk(n.ast))
+        r = upc.reach(nid)
+        dep = "dry" in r.atoms and not r.restrict("dry", True).equiv(r.restrict("dry", False))
+        ctx.check("R5", not mentions and not dep, f"update L{n.lineno}: `{n.text()[:50]}` is the same for dry and real runs",
+                  "cli.update: a step that determines the new version or the diff behaves differently under --dry",
+                  f"`{n.text()[:80]}` (L{n.lineno}) " + ("uses the value of `dry`" if mentions else f"runs when {r.project(['dry']).to_dnf()}") +
+                  ": the diff printed by the dry run is not the change a real run with the same arguments makes", loc=upd.loc(n.ast))
